@@ -43,6 +43,12 @@ pub fn parse(tokens: &[Token]) -> Result<Command, ParseError> {
 
             match iter.next() {
                 Some(Number(n)) if *n >= 0.0 => {
+                    if n.fract() != 0.0 || *n > u32::MAX as f64 {
+                        return Err(ParseError::UnexpectedToken(format!(
+                            "Invalid version number: {}",
+                            n
+                        )));
+                    }
                     version = Some(*n as u32);
                 }
                 Some(Word(num_str)) => {
